@@ -472,6 +472,13 @@ class SymArr:
         if isinstance(idx, tuple) and idx and isinstance(idx[0], SymArr) and _is_bool_arr(idx[0]) and \
                 all(isinstance(i, slice) and i == slice(None) for i in idx[1:]):
             return self._compress(idx[0])
+        if isinstance(idx, tuple) and len(idx) > 1 and isinstance(idx[0], SymArr) and _is_bool_arr(idx[0]) and idx[0].ndim == 1 and \
+                not all(isinstance(i, slice) and i == slice(None) for i in idx[1:]) and \
+                all(isinstance(i, (int, np.integer, slice)) for i in idx[1:]):
+            # a[mask, j]: select the columns first, then the rows
+            sub = self[(slice(None),) + tuple(idx[1:])]
+            if isinstance(sub, SymArr):
+                return sub._compress(idx[0])
         if isinstance(idx, tuple) and idx and idx[0] is None and any(isinstance(i, SymArr) for i in idx[1:]):
             # a[np.newaxis, mask, ...]: index without the new leading axes, then add them
             k = 0
